@@ -16,6 +16,7 @@
 
 """Base class for accessing a visibility data set."""
 
+import functools
 import logging
 import numbers
 import pathlib
@@ -175,6 +176,38 @@ def _is_deselection(selectors):
         if selector[0] != '~':
             return False
     return True
+
+
+def _restore_selection_on_error(select):
+    """Make :meth:`DataSet.select` all-or-nothing.
+
+    The selection is updated in place, one criterion at a time. If one of the
+    criteria turns out to be invalid (e.g. an out-of-range dump index), the
+    exception used to leave the data set with a half-applied selection that
+    disagreed with its own attributes (`shape`, `dumps`, ...) and kept the
+    offending criterion around, which made later unrelated select() calls
+    fail too. This decorator restores the selection as it was before the
+    call and then re-raises the exception.
+    """
+    @functools.wraps(select)
+    def wrapper(self, **kwargs):
+        # The masks are updated in place and are shared with the sensor cache and
+        # the data indexers, therefore keep the original objects and their contents
+        keeps = (self._time_keep, self._freq_keep, self._corrprod_keep)
+        old_keeps = [keep.copy() for keep in keeps]
+        old_selection = dict(self._selection)
+        old_state = (self.spw, self.subarray, self._weights_keep, self._flags_keep)
+        try:
+            return select(self, **kwargs)
+        except Exception:
+            for keep, old_keep in zip(keeps, old_keeps):
+                keep[:] = old_keep
+            self._time_keep, self._freq_keep, self._corrprod_keep = keeps
+            self._selection.clear()
+            self._selection.update(old_selection)
+            self.spw, self.subarray, self._weights_keep, self._flags_keep = old_state
+            raise
+    return wrapper
 
 
 DEFAULT_SENSOR_PROPS = {
@@ -595,6 +628,7 @@ class DataSet:
         if flags_keep is not None:
             self._flags_keep = flags_keep
 
+    @_restore_selection_on_error
     def select(self, **kwargs):
         """Select subset of data, based on time / frequency / corrprod filters.
 
